@@ -204,6 +204,9 @@ def harnesses():
         hs.append(Harness(f"DecoratorManager.stop[{n}]", h_dm_stop(n), units=[(DA_PY, "DecoratorManager.stop"), (DA_PY, "DecoratorManager._stop_decorator"), (DA_PY, "DecoratorManager.update_status")]))
     for nf, nd in ((0, 0), (1, 1), (2, 2)):
         hs.append(Harness(f"GlobalContext.stop[{nf},{nd}]", h_gc_stop(nf, nd), units=[(GC_PY, "GlobalContext.stop")]))
+    for n in (1, 2):
+        hs.append(Harness(f"FunctionDecoratorManager.finalizer[{n}]", h_fdm_dropped(n), replay=replay_dropped,
+                          units=[(D_PY, "FunctionDecoratorManager.__init__"), (DA_PY, "DecoratorManager.start"), (DA_PY, "DecoratorManager.stop"), (DA_PY, "DecoratorManager.update_status")]))
     hs.append(Harness("GlobalContext.trigger_register", h_gc_register,
                       units=[(GC_PY, "GlobalContext.trigger_register"), (GC_PY, "GlobalContext.start")]))
     hs.append(Harness("GlobalContext.create_decorator_manager", h_gc_create_dm,
@@ -624,6 +627,64 @@ def h_gc_create_dm(eng):
     # registered before started: the dm.start event comes after the registration
     eng.oblige(f"{U}/post.errors-logged-once", len(logged) == (1 if (not validated and dm._fields["status"] is M["INVALID"]) or
                                                                (started and any(p == "start-raises=0" for p in eng.path_log)) else 0))
+
+
+# ----------------------------------------------------------------------------------------------------------
+# new subsystem: the function object goes away (redefined / deleted / last reference dropped): the finalizer that
+# FunctionDecoratorManager.__init__ registers on the EvalFuncVar must deactivate the manager in EVERY state it can be in -
+# running (stop it) and validated-but-waiting-for-its-context-to-start (never start it)
+# ----------------------------------------------------------------------------------------------------------
+D_PY = f"{PKG}/decorator.py"
+
+
+def h_fdm_dropped(n):
+    def h(eng):
+        from .C08 import fdm_module
+        it = Interpreter(eng)
+        w = World(eng)
+        amod, enum, M = abc_module(eng, it, w)
+        mod, Fn, tasks, created = fdm_module(eng, it, w, amod)
+        finals = []
+        mod.env.vars["weakref"] = PyModule("weakref", {"finalize": lambda i, o, f: finals.append((o, f))})
+        hass = Rec(fields={"async_create_task": lambda i, c: w.emit("hass.create_task", c)}, name="hass")
+        amod.env.vars["DecoratorManager"].attrs["hass"] = hass
+        FDM = mod.env.vars["FunctionDecoratorManager"]
+        func = Rec(fields={"logger": logger_stub(), "name": "f"}, name="eval_func")
+        func_var = Rec(fields={"func": func, "get_name": lambda i: "f"}, name="func_var")
+        ast_ctx = Rec(fields={"get_global_ctx_name": lambda i: "file.x", "get_logger": lambda i: logger_stub()}, name="ast_ctx")
+        U = "C09/FunctionDecoratorManager.finalizer"
+        kind0, dm = run_catching(it, lambda: it.call(FDM, [ast_ctx, func_var], {}))
+        eng.oblige(f"{U}/init.registers-one-finalizer-on-the-function-variable", kind0 == "ok" and len(finals) == 1 and finals[0][0] is func_var)
+        if kind0 != "ok" or len(finals) != 1:
+            return
+        decs = mk_decorators(eng, w, n, fail_choice=False)
+        dm._fields["_decorators"] = list(decs)
+        state = ["VALIDATED", "RUNNING"][eng.choose(2, "state-when-dropped")]
+        dm._fields["status"] = M[state]
+        kind, val = run_catching(it, lambda: it.call(finals[0][1], [], {}))
+        eng.cover(f"dropped:{state}")
+        eng.oblige(f"{U}/post.no-exception", kind == "ok")
+        if state == "RUNNING":
+            coros = [e[1] for e in w.events("hass.create_task")]
+            eng.oblige(f"{U}/running.stop-scheduled-once", len(coros) == 1)
+            if len(coros) == 1:
+                k2, _ = run_catching(it, lambda: it.await_(coros[0]))
+                eng.oblige(f"{U}/running.every-decorator-stopped-once", k2 == "ok" and sorted(e[1] for e in w.events("stop")) == list(range(n)))
+                eng.oblige(f"{U}/running.status-stopped", dm._fields["status"] is M["STOPPED"])
+        else:
+            # the global context starts later and schedules start() of everything that was waiting (GlobalContext.start): the
+            # dropped function's decorators must not be started, whatever start() does otherwise
+            k2, v2 = run_catching(it, lambda: it.await_(it.call(it.getattr_(dm, "start"), [], {})))
+            ob = eng.oblige(f"{U}/waiting.a-later-context-start-starts-nothing", [e[1] for e in w.events("start")] == [])
+            if ob.status == "refuted":
+                ob.witness = {"signature": "dropped-before-context-start"}
+            eng.oblige(f"{U}/waiting.never-running", dm._fields["status"] is not M["RUNNING"])
+    return h
+
+
+def replay_dropped(wj):
+    from replay.native import run_native
+    return run_native("c09_dropped_before_start", wj)
 
 
 # ----------------------------------------------------------------------------------------------------------
